@@ -32,6 +32,10 @@ func explainSynth(r *rand.Rand) Case {
 		default:
 			zh := chance(r, 0.45)
 			pre := pick(r, explPrefixes)
+			if chance(r, 0.01) {
+				// a clause that echoes a very long value (a field of 70 000 … 300 000 bytes)
+				pre = "\"F\" input \"" + strings.Repeat(pick(r, []string{"a", "xy", "中"}), pick(r, []int{30000, 70000, 150000})) + "\", "
+			}
 			ex := pick(r, explTexts)
 			if chance(r, 0.25) {
 				ex = randFrom(r, []string{"m", "s", " ", "中", "文", "说", ":", ";", "e", "x", "p", "l", "a", "i", "n"}, 0, 8)
